@@ -19,6 +19,12 @@
 #define __CPROVER_assume(c) ((void)0)
 #endif
 
+/* R15: pointer difference (see specs/bits.py) */
+#ifdef VERIF_NATIVE
+#define PTRDIFF(a, b) ((a) - (b))
+#else
+#define PTRDIFF(a, b) (__CPROVER_assert(__CPROVER_same_object((a), (b)), "pointer subtraction within one object"), (ptrdiff_t)__CPROVER_POINTER_OFFSET(a) - (ptrdiff_t)__CPROVER_POINTER_OFFSET(b))
+#endif
 #define MIN(a, b) ((a) < (b) ? (a) : (b))
 #define MAX(a, b) ((a) < (b) ? (b) : (a))
 #define ABS(a) ((a) < 0 ? -(a) : (a))
